@@ -929,14 +929,24 @@ func ruleVD4(c *Ctx) {
 			if s, isC := constString(st.Val); !isC || s != "" {
 				return
 			}
-			// constants of NewState equality edges that can lead here
+			// constants of NewState equality edges that can lead here (directly, or as alternatives of a predicate helper)
 			for _, bf := range branchFacts(re) {
-				curEnv = bf.A.Env
-				if bf.A.Kind == "const" && bf.Holds {
-					if _, n, ok := fieldLoad(bf.A.X); ok && n == "NewState" && (bf.E.To() == r.Blk || reach(bf.E.To(), nil, nil)[r.Blk] && sameCase(bf.E.To(), r.Blk)) {
-						clears[constStr(bf.A.C)] = true
+				if !(bf.E.To() == r.Blk || reach(bf.E.To(), nil, nil)[r.Blk] && sameCase(bf.E.To(), r.Blk)) {
+					continue
+				}
+				atoms := []factAtom{{bf.A, bf.Holds}}
+				for _, alt := range bf.Alts {
+					atoms = append(atoms, alt...)
+				}
+				for _, fa := range atoms {
+					curEnv = fa.A.Env
+					if fa.A.Kind == "const" && fa.Holds {
+						if _, n, ok := fieldLoad(fa.A.X); ok && n == "NewState" {
+							clears[constStr(fa.A.C)] = true
+						}
 					}
 				}
+				curEnv = nil
 			}
 		})
 	}
